@@ -42,7 +42,8 @@ def main():
             r = subprocess.run([f"{scratch}/verif/check", c, "--tier", tier], cwd=f"{scratch}/verif", env=dict(os.environ, VERIF_STDERR="/dev/null", REX_REPO=f"{scratch}/repo"),
                                capture_output=True, text=True, timeout=7200)
             lines = [l for l in r.stdout.splitlines() if l.startswith(("VIOLATION", "OK ", "KNOWN", "HARNESS", "  failing", "  broken", "  corr"))]
-            out["checks"][c] = dict(exit=r.returncode, wall=round(time.time() - t0), lines=[l[:400] for l in lines[:8]])
+            lines = [l for l in lines if l.startswith(("VIOLATION", "OK ", "HARNESS"))] + [l for l in lines if l.startswith("  failing")][:5] + [l for l in lines if l.startswith(("  broken", "  corr", "KNOWN"))][:4]
+            out["checks"][c] = dict(exit=r.returncode, wall=round(time.time() - t0), lines=[l[:400] for l in lines])
     finally:
         shutil.rmtree(scratch, ignore_errors=True)
     print(json.dumps(out, indent=1))
